@@ -64,7 +64,7 @@ m = {
     "engines": [{"name": "lean-model+correspondence", "path": "/verif/check", "serves_properties": [p["id"] for p in props],
                  "kind_free_text": "Lean 4 model + theorems (lean/), Rust harness (harness/), Python orchestrator and oracles (check, vlib/)"}],
     "checks": checks,
-    "notes": "All 19 properties are claimed; none is not applicable. Genuine defects found: eight repaired by `fix:` commits in /repo, the rest listed in known_findings.json (see DESIGN.md sections 8 and 13-16).",
+    "notes": "All 19 properties are claimed; none is not applicable. Genuine defects found: nine repaired by `fix:` commits in /repo, the rest listed in known_findings.json (see DESIGN.md sections 8 and 13-16). Every library-level check also replays its own programs through the real binary in all input modes; when the in-process harness does not build against a tree that itself builds (an internal API rename), a check falls back to a black-box comparison of the binary's stdout with the executable model (DESIGN.md section 13) instead of giving no verdict.",
     "not_applicable": [],
 }
 json.dump(m, open(os.path.join(V, "MANIFEST.json"), "w"), indent=1)
